@@ -67,6 +67,17 @@ type embLP struct {
 	N float64
 }
 
+// Wrap holds a pointer; two Wraps with separately allocated, equal pointees are equal as JSON.
+type Wrap struct {
+	In  *Leaf
+	Tag string
+}
+
+type Pair struct {
+	A, B Wrap
+	Ws   []Wrap
+}
+
 func leafVals() []Leaf {
 	return []Leaf{{"x", 1, true}, {"", 0, false}}
 }
@@ -277,6 +288,8 @@ func checkC18(r *harness.Run) harness.Coverage {
 			map[string]interface{}{"Name": "generic", "ID": 5.0},
 			EmbL{meta: meta{3, "z"}, Title: "t", Subs: []embLP{{&meta{1, "p"}, 1}, {nil, 2}}},
 			&EmbL{meta: meta{4, ""}, Title: "", Subs: []embLP{}},
+			Pair{A: Wrap{&Leaf{"x", 1, true}, "t"}, B: Wrap{&Leaf{"x", 1, true}, "t"}, Ws: []Wrap{{&Leaf{"x", 1, true}, "t"}, {&Leaf{"y", 2, false}, "t"}, {nil, ""}}},
+			&Pair{A: Wrap{&Leaf{"x", 1, true}, "t"}, B: Wrap{&Leaf{"x", 2, true}, "t"}, Ws: []Wrap{}},
 			// generic containers holding typed slices
 			map[string]interface{}{"Name": "mixed", "Kids": []interface{}{[]string{"a", "b"}, []float64{1, 2}, []interface{}{[]string{"c"}}}, "ID": []string{"x", "y"}},
 			struct {
@@ -290,7 +303,9 @@ func checkC18(r *harness.Run) harness.Coverage {
 		for _, e := range []string{"ID", "Name", "Label", "Kids[*].ID", "Kids[*].Label", "Kids[?Score > `1`].Label", "Kids[?ID].Score", "ID || Name", "[ID, Name, Label]", "{i: ID, n: Name}", "Kids[0].ID", "Kids[1].ID", "Kids[-1].Label",
 			"length(Kids)", "Kids[].ID", "Kids[*].[ID, Score]", "not_null(ID, Name)", "Kids[::-1][*].ID", "Kids[1]", "Kids[1].[ID]", "Kids[*].Score",
 			"Rev", "By", "Title", "Subs[*].Rev", "Subs[*].By", "Subs[?N > `1`].Rev", "Subs[0].By", "Subs[1].Rev", "[Rev, By, Title]", "Subs[].N", "Rev || Title",
-			"Kids[0]", "Kids[2][0]", "Kids[]", "Kids[*][0]", "ID[0]"} {
+			"Kids[0]", "Kids[2][0]", "Kids[]", "Kids[*][0]", "ID[0]",
+			// comparisons of whole Go values of the same type (filter conditions compare what navigation returns)
+			"A == B", "A != B", "A.In == B.In", "Ws[?@ == A].Tag", "Ws[0] == A", "Ws[1] == A", "Ws[?In.S == 'x'].Tag", "Ws[?In.N > `1`].In.S", "A.In.S == B.In.S", "[A == B, A.Tag == B.Tag]", "Ws[2].In == `null`"} {
 			embExprs = append(embExprs, [2]string{e, e}, [2]string{lowerFirst(univ.Lx(e)), e})
 		}
 		// built-ins over these documents: only "no panic, no modification" is demanded (marked by an empty twin)
